@@ -36,7 +36,8 @@ def sensitivity(pattern=""):
                 continue
             for pid in pids:
                 env = dict(os.environ, TRANSACTRON_SRC=scratch)
-                runs = os.environ.get("SENS_RUNS", "200")
+                # elaboration-only checks are cheap and some of their mutants are rare shapes: they get their quick-tier size
+                runs = os.environ.get("SENS_RUNS", "600" if pid == "C11" else "200")
                 p = subprocess.run([os.path.join(ROOT, "check"), pid, "--runs", runs, "--no-evidence", "--no-selftest"],
                                    env=env, capture_output=True, text=True)
                 m = re.search(r"VIOLATION property=\S+ replay=(\S+)", p.stdout)
